@@ -5,6 +5,7 @@ import xitorch
 from xitorch.integrate import quad
 
 from harness.base import grads, zero_if_none
+from harness.paramgraph import param_graph_claims
 
 PROPERTY = "C13"
 DEFAULT_OPTS = {"validate": 2, "timeout_ms": 15000, "budget_s": 240, "max_paths": 40}
@@ -146,6 +147,37 @@ def infinite(cx, n=2):
     return "ok"
 
 
+class _QMod(xitorch.EditableModule):
+    """object-held tensors where one is derived from the other / the same tensor held twice"""
+
+    def __init__(self, a, b):
+        self.a = a
+        self.b = b
+
+    def forward(self, x):
+        return self.a * self.b * x ** 4 + self.a * x
+
+    def getparamnames(self, methodname, prefix=""):
+        return [prefix + "a", prefix + "b"]
+
+
+def param_graph(cx, kind="derived", holder="explicit", n=2):
+    """parameters that are functions of each other or the same tensor twice (explicit or object-held)"""
+    k = cx.sym("k", (1,), requires_grad=True)
+    xl = cx.sym("xl", (1,), requires_grad=True)
+    xu = cx.sym("xu", (1,), requires_grad=True)
+    w = cx.sym("w", (1,))
+    if holder == "explicit":
+        if kind == "derived_only":
+            call = lambda a, b: (w * quad(lambda x, b_: b_ * x ** 4 + b_ * b_ * x, xl, xu, params=(b,), n=n)).sum()
+        else:
+            call = lambda a, b: (w * quad(lambda x, a_, b_: a_ * b_ * x ** 4 + a_ * x, xl, xu, params=(a, b), n=n)).sum()
+    else:
+        call = lambda a, b: (w * quad(_QMod(a, b).forward, xl, xu, n=n)).sum()
+    param_graph_claims(cx, call, k, kind, others=[xl, xu])
+    return "ok"
+
+
 def configs(tier):
     cfgs = []
 
@@ -162,6 +194,10 @@ def configs(tier):
     add("grad/n2/tensor/module", gradient, n=2, limits="tensor", kind="module")
     add("grad/n2/numbers/module/2nd", gradient, n=2, limits="numbers", kind="module", second=True)
     add("grad/n2/tensor/only_limits", gradient, n=2, limits="tensor", kind="pure", only_limits=True)
+    for kind in ("derived", "duplicate", "derived_only"):
+        add("param_graph/explicit/%s" % kind, param_graph, kind=kind, holder="explicit")
+    add("param_graph/object/derived", param_graph, kind="derived", holder="object")
+    add("param_graph/object/duplicate", param_graph, kind="duplicate", holder="object")
     add("sequence/n3_n2_n3", sequence, n1=3, n2=2)
     add("sequence/n2_n4_n2", sequence, n1=2, n2=4)
     add("infinite/n2", infinite, n=2)
